@@ -154,7 +154,7 @@ def jet(n, env):
         a = jet(n[1], env)
         pdf = math.exp(-0.5 * a.v * a.v) / math.sqrt(2 * math.pi)
         return jfun(a, 0.5 * math.erfc(-a.v / SQRT2), pdf, -a.v * pdf)
-    if k == 'PowerConstant':
+    if k in ('PowerConstant', 'PowNumeric'):
         return jpowc(jet(n[1], env), float(n[2]))
     if k == 'Elem':
         key = int(jet(n[1], env).v)
@@ -220,6 +220,8 @@ def build(n, betas):
         return getattr(ex, k)(build(n[1], betas))
     if k == 'PowerConstant':
         return build(n[1], betas) ** n[2]
+    if k == 'PowNumeric':          # the exponent written as a Numeric expression: same function as a constant exponent
+        return build(n[1], betas) ** ex.Numeric(n[2])
     if k == 'Elem':
         return ex.Elem({key: build(s, betas) for key, s in n[2]}, build(n[1], betas))
     if k == 'ConditionalSum':
@@ -382,7 +384,7 @@ def family_closed_forms(rng, count, nrows):
     out = []
     for idx in range(count):
         data = {'x': [rnd(rng, -1.5, 1.5) for _ in range(nrows)]}
-        form = idx % 7
+        form = idx % 8
         if form == 0:
             names = pick_names(rng, 3)
             b1, b2, b3 = names
@@ -501,6 +503,25 @@ def family_closed_forms(rng, count, nrows):
                     G[r] = lam * d
                     H[r] = -lam * (u + lam) * np.outer(d, d)
                 return f, G, H
+        elif form == 7:
+            # interior point of a polynomial: the base of the power is EXACTLY 0 on two rows (the value 0 is right there whatever
+            # the node; the second derivative 2 is only right if the exponent is treated as the constant it is)
+            names = pick_names(rng, 2)
+            b1, b2 = names
+            node = ('UnaryMinus', ('Times', B(b2), ('PowNumeric', ('Minus', B(b1), V('x')), 2.0)))
+
+            def analytic(theta, data, order, b1=b1, b2=b2):
+                n = len(data['x'])
+                f, G, H = np.zeros(n), np.zeros((n, 2)), np.zeros((n, 2, 2))
+                i1, i2 = order[b1], order[b2]
+                for r, x in enumerate(data['x']):
+                    d = theta[b1] - x
+                    f[r] = -theta[b2] * d * d
+                    G[r, i1] = -2 * theta[b2] * d
+                    G[r, i2] = -d * d
+                    H[r, i1, i1] = -2 * theta[b2]
+                    H[r, i1, i2] = H[r, i2, i1] = -2 * d
+                return f, G, H
         else:
             names = pick_names(rng, 2)
             b1, b2 = names
@@ -521,6 +542,8 @@ def family_closed_forms(rng, count, nrows):
                     H[r, i1, i2] = H[r, i2, i1] = pw * lg
                 return f, G, H
         theta = {nm: rnd(rng, 0.2, 1.4) * rng.choice((1, 1, -1)) for nm in names}
+        if form == 7:
+            data['x'][0] = data['x'][-1] = theta[names[0]]          # base exactly 0 on the first and the last row
         if form == 2:
             theta[names[1]] = abs(theta[names[1]])
         out.append(dict(tag='closed-form[%d]' % form, node=node, free=names, fixed={}, data=data, theta=theta,
@@ -640,7 +663,7 @@ class Checker:
                             'Hessian: the engine branch for exponent 2 adds 2*h_child instead of 2*f_child*h_child')
         key = clause + ' | ' + case['tag']
         self.hist[key] = self.hist.get(key, 0) + 1
-        if len(self.failures) < 10:
+        if self.hist[key] <= 2 and len(self.failures) < 60:      # two records per (clause, formula family): a flood of one kind must not hide another
             def conv(o):
                 if isinstance(o, np.ndarray):
                     return o.tolist()
@@ -1123,6 +1146,20 @@ def worker_main(spec):
     print(json.dumps(result()))
 
 
+
+def _diverse(failures, cap=60):
+    """records of different kinds first (two per kind): a flood of one kind of failure must not hide another kind"""
+    seen, first, rest = {}, [], []
+    for f in failures:
+        if not f:
+            continue
+        c = f.get('case') if isinstance(f.get('case'), dict) else {}
+        k = (f.get('clause'), str(c.get('tag', c.get('part', c.get('formula', ''))))[:60])
+        seen[k] = seen.get(k, 0) + 1
+        (first if seen[k] <= 2 else rest).append(f)
+    return (first + rest)[:cap]
+
+
 def main():
     if len(sys.argv) >= 3 and sys.argv[1] == '--worker':
         worker_main(json.loads(sys.argv[2]))
@@ -1155,7 +1192,7 @@ def main():
              'the engine value (gradient 2e-6, Hessian 1e-4 relative) on %s; parameters given partly by initial value '
              'and partly by a betas dict; seed %d%s'
              % (ncases, len(OPERATORS), 5 if q else 9, 8 if q else 12, 'every formula', seed, '; TIME BUDGET HIT' if timed_out else ''))
-    print(json.dumps({'cases': cases, 'bound': bound, 'failures': failures[:10]}))
+    print(json.dumps({'cases': cases, 'bound': bound, 'failures': _diverse(failures)}))
     return 0 if nfail == 0 else 1
 
 
